@@ -220,7 +220,10 @@ def gen_node(rng: random.Random, depth: int, budget: _Budget, pool: str = "main"
         return {"t": "Group", "children": kids, "fit": rng.random() < 0.8}
     if k == "NoMeasure":
         return {"t": "NoMeasure", "child": sub(0.7)}
-    return {"t": "Cast", "child": sub(0.7)}
+    child = sub(0.7)
+    while child["t"] == "Cast":  # __rich__ must return a renderable or a str, not another castable object
+        child = child["child"]
+    return {"t": "Cast", "child": child}
 
 
 def gen_table(rng: random.Random, depth: int, budget: _Budget, pool: str, extras: bool) -> Desc:
@@ -457,6 +460,8 @@ def valid(d: Desc) -> bool:
             need = smin(n) if t == "Panel" else smin(n["child"])
             if n["width"] < need:
                 return False
+        if t == "Cast" and n["child"]["t"] == "Cast":
+            return False
         if t == "Group":
             if any(newline_less(k) for k in n["children"][:-1]):
                 return False
@@ -725,6 +730,10 @@ def _shrink_string(s: str) -> Iterator[str]:
     for word, repl in (("supercalifragilistic", "abcdef"), ("0123456789", "012")):
         if word in s:
             yield s.replace(word, repl)
+    t = specnative.width_table()
+    canon = "".join("a" if (t[ord(ch)] == 1 and not ch.isspace()) else ch for ch in s)
+    if canon != s:
+        yield canon
 
 
 def shrinks(d: Desc) -> Iterator[Desc]:
